@@ -14,13 +14,13 @@ Print Assumptions C07_cl_overwrite_when_chunked.
    equal to the number of delivered body octets (literally the decimal length when the parser wrote it,
    numerically under the library's own integer reading when the peer's value was kept) and no
    Transfer-Encoding -- except the HTTP/1.0 case of known finding D5, which the statement names. *)
-Theorem C07_delivered_framing : forall (C : callees) (k : kind) (frags : list bytes),
-  match feed C k init frags with (_, ms, _) => Forall (framing_ok C) ms end.
-Proof. intros C k frags. apply feed_framing. exact (J_init C). Qed.
+Theorem C07_delivered_framing : forall (cfg : config) (C : callees) (k : kind) (frags : list bytes),
+  match feed cfg C k init frags with (_, ms, _) => Forall (framing_ok C) ms end.
+Proof. intros cfg C k frags. apply feed_framing. exact (J_init C). Qed.
 Print Assumptions C07_delivered_framing.
 
 (* the same for a single completed message, from the completion invariant *)
-Theorem C07_completion : forall C k v i b m, complete_ok C i -> on_body_complete C k v i b = inl m -> framing_ok C m.
+Theorem C07_completion : forall cfg C k i b m, complete_ok C i -> on_body_complete cfg C k i b = inl m -> framing_ok C m.
 Proof. exact on_body_complete_framing. Qed.
 Print Assumptions C07_completion.
 
@@ -56,7 +56,7 @@ Definition ex_tables : tables := {|
   t_hdrs := [((true, [(X "436f6e74656e742d4c656e677468", X "31"); (X "5472616e736665722d456e636f64696e67", X "6368756e6b6564")]), HOk)];
   t_decode := []; t_2047 := []; t_trailer := [] |}.
 Example C07_example :
-  feed (callees_of ex_tables) Client init
+  feed real (callees_of ex_tables) Client init
     [X "485454502f312e3120323030204f4b0d0a436f6e74656e742d4c656e6774683a20310d0a5472616e736665722d456e636f64696e673a206368756e6b65640d0a0d0a330d0a61";
      X "62630d0a300d0a0d0a"]
   = ({| buf := []; cur := None |},
